@@ -50,7 +50,7 @@ FolderVerdict(cc) ==
     IN IF cc.fl = "mbox" /\ raws = 0 /\ ~(Len(msgs) = n /\ \A i \in 1..n : Canon(msgs[i]) = Canon(MdLines(st[i], i))) THEN "RoundTrip"
        ELSE IF cc.fl = "mbox" /\ Len(msgs) # n + raws THEN "RawFromSplits"
        ELSE IF \E k \in 1..Len(msgs) : Served(Served(msgs[k])) # Served(msgs[k]) THEN "ServeIdempotent"
-       ELSE IF \E k \in 1..Len(msgs) : NameOf(Parse(Served(msgs[k]))) # rows[k].name THEN "ListingMatchesRetrieval"
+       ELSE IF \E k \in 1..Len(msgs) : ~SameName(NameOf(Parse(Served(msgs[k]))), rows[k].name) THEN "ListingMatchesRetrieval"
        ELSE IF \E k \in 1..Len(msgs) : NumOutcome(NatStr(k), Len(msgs)) # k THEN "Numbered"
        ELSE IF ~(HeaderlessListed \/ ~AnyHeaderless(msgs)) THEN "HeaderlessAnswered"
        ELSE IF ~(From8Tolerated \/ cc.fl # "mbox" \/ FirstFrom8(st) = 0) THEN "From8Answered"
